@@ -36,6 +36,7 @@ type Config struct {
 	PCTDepth     int            `json:"pct_depth,omitempty"`
 	PCTHorizon   int            `json:"pct_horizon,omitempty"` // priority change points are drawn from [0, horizon) scheduler steps
 	YieldDensity float64        `json:"yield_density"` // probability that an optional (pre-op) yield is honoured
+	StmtYield    float64        `json:"stmt_yield,omitempty"` // probability that a statement-level preemption point (request handlers, cluster layer) is honoured; 0 = never
 	TimeJumpProb float64        `json:"time_jump_prob,omitempty"`
 	Workers      int            `json:"workers"` // NumCPU()-1 seen by the code
 	MaxSteps     int            `json:"max_steps"`
@@ -185,6 +186,26 @@ func Yield(site string) {
 		return
 	}
 	optionalYield(site)
+}
+
+// StmtYield is a statement-level preemption point: simgo puts one before every
+// statement of the request-handler and cluster packages, so that goroutines sharing
+// plain variables there can be interleaved between any two statements.
+func StmtYield(site string) {
+	s := S
+	if s == nil || s.cfg.StmtYield <= 0 {
+		return
+	}
+	s.mu.Lock()
+	skip := float64(s.draw()>>11)/(1<<53) >= s.cfg.StmtYield
+	if !skip {
+		s.counter["stmt-yield-taken"]++
+	}
+	s.mu.Unlock()
+	if skip {
+		return
+	}
+	park(site)
 }
 
 // YieldAlways is a scheduling point that is never skipped by the density knob.
